@@ -1,6 +1,6 @@
 (** C16 - Allocation policies mean what the documentation says; no spurious refusals.
     Only statements closed by [exact]; the proofs live in HQ.Alloc.GroupsProofs. *)
-From HQ Require Import Base.Prelude Gen.Consts Alloc.Model Alloc.Spec Alloc.Lemmas Alloc.GroupsProofs Alloc.Examples.
+From HQ Require Import Base.Prelude Gen.Consts Alloc.Model Alloc.Spec Alloc.Lemmas Alloc.GroupsProofs Alloc.MirrorSystem Alloc.Admission Alloc.Objective Alloc.Examples.
 Open Scope N_scope.
 
 (** The reference [min_groups] is the true minimum number of groups that can hold (units, fraction):
@@ -20,15 +20,56 @@ Theorem C16_rows_mean_sufficient : forall per units fr m,
   mask_feasible per units fr m = sufficient per units fr m.
 Proof. exact rows_mean_sufficient. Qed.
 
-(** full statements that are monitored on every run but not proved (see tools/props/C16.json "partial") *)
-Definition C16_admission_iff_feasible_full : Prop := forall a rq w ok yard,
-  mirror_ok (a_pools a) (a_free a) = true ->
-  forallb (fun e => negb (is_forced (e_req e))) rq = true ->
-  has_resources a rq w = Ok (ok, yard) -> ok = request_fits (a_pools a) rq.
-Definition C16_strict_sound_full : Prop := forall pools0 before e ra,
-  (* for a granted strict entry *) is_forced (e_req e) = true -> group_count_ok pools0 before e ra = true.
+(** Admission = feasibility (non-strict policies compact / tight / scatter with an amount): in every reachable
+    state the admission test [has_resources_for_request] - computed from the concise summary - does not panic
+    and is true EXACTLY when the free resources in the POOLS contain enough for every entry (reference
+    [request_fits]: enough whole indices and the fractional remainder from one index; enough of a sum
+    resource).  So there are no spurious refusals, and by C16_rows_mean_sufficient the group solver has a
+    solution whenever the test passes (the unwrap() in claim_resources cannot fail). *)
+Theorem C16_admission_iff_feasible : forall d s0 ops s rq w,
+  init d = Ok s0 -> Forall valid_op ops -> run s0 ops = Ok s ->
+  forallb plain_entry rq = true ->
+  has_resources (s_alloc s) rq w = Ok (request_fits (a_pools (s_alloc s)) rq, a_yard (s_alloc s)).
+Proof. exact admission_iff_feasible_thm. Qed.
+
+(** [bounded per]: fewer than 32*1024 whole free units in total, fewer than 64 groups, fractions < 1 unit. *)
+
+(** The solver's objective orders selections of groups by their NUMBER first: under the size bounds a selection
+    with fewer groups has a strictly larger objective, with or without the tie-breaking terms
+    (-1024 per group dominates the -units/32 and the 16*fraction terms). *)
+Theorem C16_objective_orders_by_group_count : forall per fr tie m m',
+  bounded per -> In m (sublists (full_mask per)) -> In m' (sublists (full_mask per)) ->
+  len m < len m' -> (mask_objective tie per fr m' < mask_objective tie per fr m)%Z.
+Proof. exact objective_orders. Qed.
+
+(** Hence an optimal feasible answer of the solver selects exactly [min_groups] groups: compact / tight use the
+    smallest number of groups possible in the current state (optimality of HiGHS' answer itself is checked per
+    answer by the monitor solver-suboptimal). *)
+Theorem C16_optimal_is_minimal : forall per units fr tie m,
+  bounded per -> In m (sublists (full_mask per)) -> mask_feasible per units fr m = true ->
+  (forall m', In m' (sublists (full_mask per)) -> mask_feasible per units fr m' = true ->
+              (mask_objective tie per fr m' <= mask_objective tie per fr m)%Z) ->
+  min_groups per units fr = Some (len m).
+Proof. exact optimal_is_minimal. Qed.
+
+(** Strict policies (one entry, no coupling weights), the comparison has_resources_for_request makes after the
+    fix: if the objective (tie-breaking off) of a selection feasible NOW is within the 0.1 slack of the objective
+    of an optimal selection for the EMPTY worker, the amount fits NOW into at most the minimum number of groups
+    of the empty worker - a strict request is only admitted in such states. *)
+Theorem C16_strict_sound : forall per_now per_all units fr m_now m_all,
+  In m_now (sublists (full_mask per_now)) -> In m_all (sublists (full_mask per_all)) ->
+  mask_feasible per_now units fr m_now = true ->
+  min_groups per_all units fr = Some (len m_all) ->
+  (mask_objective false per_all fr m_all - SLACK <= mask_objective false per_now fr m_now)%Z ->
+  exists k, min_groups per_now units fr = Some k /\ k <= len m_all.
+Proof. exact strict_admission_sound. Qed.
+
+(** statements that are monitored on every run but not proved (see tools/props/C16.json "partial") *)
 Definition C16_claim_follows_policy_full : Prop := forall before e ra,
-  scatter_ok before e ra = true /\ compact_even_ok before e ra = true /\ tight_ok before e ra = true.
+  scatter_ok before e ra = true /\ compact_even_ok before e ra = true /\ tight_ok before e ra = true
+  /\ min_fraction_ok before e ra = true.
+Definition C16_strict_grant_group_count_full : Prop := forall pools0 before e ra,
+  is_forced (e_req e) = true -> group_count_ok pools0 before e ra = true.
 
 (** the repaired strict admission: the scenario of corpus/alloc/strict-tiebreak-refusal.trace is granted *)
 Theorem C16_strict_fix_example :
@@ -43,4 +84,8 @@ Proof. exact min_groups_example. Qed.
 
 Print Assumptions C16_min_groups_correct.
 Print Assumptions C16_rows_mean_sufficient.
+Print Assumptions C16_admission_iff_feasible.
+Print Assumptions C16_objective_orders_by_group_count.
+Print Assumptions C16_optimal_is_minimal.
+Print Assumptions C16_strict_sound.
 Print Assumptions C16_strict_fix_example.
